@@ -21,6 +21,7 @@ import (
 	"fmt"
 	"reflect"
 	"strings"
+	"unicode/utf8"
 
 	"github.com/bytedance/sonic"
 
@@ -275,6 +276,9 @@ func internalMarshalAs(v any, slot reflect.Type) (*internalStruct, error) {
 					return nil, fmt.Errorf("marshaling map key[%v] fail: %v", k.Interface(), err)
 				}
 			} else {
+				if k.Kind() == reflect.String && !utf8.ValidString(k.String()) {
+					return nil, fmt.Errorf("marshaling map key[%q] fail: not valid UTF-8", k.String())
+				}
 				keyStr, err = sonic.MarshalString(k.Interface())
 				if err != nil {
 					return nil, fmt.Errorf("marshaling map key[%v] fail: %v", k.Interface(), err)
@@ -349,6 +353,10 @@ func internalMarshalAs(v any, slot reflect.Type) (*internalStruct, error) {
 		}
 		ret.Type = key
 
+		if rv.Kind() == reflect.String && !utf8.ValidString(rv.String()) {
+			// JSON would silently replace the invalid bytes with U+FFFD
+			return nil, fmt.Errorf("marshaling %v[%q] fail: not valid UTF-8", rt, rv.String())
+		}
 		jsonBytes, err := json.Marshal(rv.Interface())
 		if err != nil {
 			return nil, err
